@@ -159,13 +159,17 @@ class Filtered:
     """View of a Result that records only the obligations of the given rules (used when a property imports part of
     another rule family, so that it does not alarm about clauses that are not its own)."""
 
-    def __init__(self, res, allowed):
+    def __init__(self, res, allowed, key_prefixes=None):
         self.res = res
         self.allowed = set(allowed)
         self.extra = res.extra
+        # optional: within the allowed rules, only obligations whose key starts with one of these prefixes
+        self.key_prefixes = tuple(key_prefixes) if key_prefixes else None
 
     def ob(self, rule, *a, **k):
         if rule in self.allowed:
+            if self.key_prefixes is not None and a and not str(a[0]).startswith(self.key_prefixes):
+                return True
             return self.res.ob(rule, *a, **k)
         return True
 
